@@ -1,0 +1,255 @@
+/*
+ * Verification hook (only compiled with -DKAUZLARI_SYMPLER_VERIF).
+ */
+#ifdef KAUZLARI_SYMPLER_VERIF
+
+#include <map>
+#include "verif_observer.h"
+#include "simulation.h"
+#include "phase.h"
+#include "manager_cell.h"
+#include "cell.h"
+#include "colour_pair.h"
+#include "pair_list.h"
+#include "pairdist.h"
+#include "particle.h"
+#include "controller.h"
+#include "boundary.h"
+#include "symbol.h"
+#include "particle_cache.h"
+#include "val_calculator.h"
+
+using namespace std;
+
+#define M_SIMULATION ((Simulation*) m_parent)
+#define M_CONTROLLER M_SIMULATION->controller()
+#define M_PHASE M_SIMULATION->phase()
+#define M_MANAGER M_PHASE->manager()
+
+const Callable_Register<VerifObserver> verif_observer("VerifObserver");
+
+static FILE* s_verif_trace_file = NULL;
+static VerifObserver* s_verif_instance = NULL;
+
+VerifObserver::VerifObserver(Simulation* sim): Callable(sim), m_file(NULL)
+{
+  init();
+}
+
+VerifObserver::~VerifObserver()
+{
+  if (m_file) fclose(m_file);
+  if (s_verif_instance == this) { s_verif_instance = NULL; s_verif_trace_file = NULL; }
+}
+
+void VerifObserver::init()
+{
+  m_properties.setClassName("VerifObserver");
+  m_properties.setDescription("Verification hook: dumps the complete state after every step.");
+  STRINGPC(nameOutputFile, m_filename, "File to dump to.");
+  m_filename = "verif_obs.txt";
+}
+
+void VerifObserver::setup()
+{
+  Callable::setup();
+  m_file = fopen(m_filename.c_str(), "w");
+  if (!m_file)
+    throw gError("VerifObserver::setup", "cannot open " + m_filename);
+  s_verif_trace_file = m_file;
+  s_verif_instance = this;
+}
+
+void VerifObserver::call(size_t timestep)
+{
+  dump((long) timestep);
+}
+
+/*static*/ void VerifObserver::dumpInitial(Simulation* sim)
+{
+  if (s_verif_instance) s_verif_instance->dump(-1);
+}
+
+/*static*/ void VerifObserver::traceSymbol(const char* kind, size_t stage, const string& className, const string& symbolName)
+{
+  if (s_verif_trace_file)
+    fprintf(s_verif_trace_file, "VSYM %s %lu %s %s\n", kind, (unsigned long) stage, className.c_str(), symbolName.c_str());
+}
+
+static void pp(FILE* f, const point_t& p)
+{
+  fprintf(f, " %a %a %a", p.x, p.y, p.z);
+}
+
+static void dumpTag(FILE* f, Data& tag)
+{
+  if (tag.isNull()) return;
+  for (size_t i = 0; i < tag.rows(); ++i) {
+    const DataFormat::attribute_t& a = tag.attrByIndex(i);
+    fprintf(f, " | %s %s %d", a.name.c_str(), a.datatypeAsString().c_str(), a.persistent ? 1 : 0);
+    switch (a.datatype) {
+    case DataFormat::INT: fprintf(f, " %d", tag.intByIndex(i)); break;
+    case DataFormat::DOUBLE: fprintf(f, " %a", tag.doubleByIndex(i)); break;
+    case DataFormat::POINT: pp(f, tag.pointByIndex(i)); break;
+    case DataFormat::TENSOR: {
+      tensor_t& t = tag.tensorByIndex(i);
+      for (size_t k = 0; k < SPACE_DIMS; ++k) for (size_t l = 0; l < SPACE_DIMS; ++l) fprintf(f, " %a", t(k, l));
+      break; }
+    case DataFormat::VECTOR_DOUBLE: {
+      vector<double>* v = tag.vectorDoubleByIndex(i).value();
+      fprintf(f, " n=%lu", (unsigned long) (v ? v->size() : 0));
+      if (v) for (size_t k = 0; k < v->size(); ++k) fprintf(f, " %a", (*v)[k]);
+      break; }
+    default: fprintf(f, " ?"); break;
+    }
+  }
+}
+
+void VerifObserver::dump(long step)
+{
+  FILE* f = m_file;
+  Phase* phase = M_PHASE;
+  ManagerCell* manager = M_MANAGER;
+  size_t nC = manager->nColours();
+
+  fprintf(f, "VSTEP %ld forceidx=%lu dt=%a t=%a\n", step, (unsigned long) M_CONTROLLER->forceIndex(), M_CONTROLLER->dt(), M_CONTROLLER->time());
+  {
+    const cuboid_t& bb = phase->boundary()->boundingBox();
+    fprintf(f, "VBOX");
+    pp(f, bb.corner1); pp(f, bb.corner2);
+    const bool_point_t& pf = phase->boundary()->periodicityFront();
+    const bool_point_t& pb = phase->boundary()->periodicityBack();
+    fprintf(f, " %d %d %d %d %d %d\n", (int) pf.x, (int) pf.y, (int) pf.z, (int) pb.x, (int) pb.y, (int) pb.z);
+  }
+  for (size_t c = 0; c < nC; ++c)
+    fprintf(f, "VSPECIES %lu %s\n", (unsigned long) c, manager->species(c).c_str());
+
+  if (step == -1) {
+    /* stages as determined by Simulation::setSymbolStages, in the order of the lists the sweep visits */
+    vector<ColourPair*>& cps0 = manager->colourPairs();
+    for (size_t k = 0; k < cps0.size(); ++k) {
+      ColourPair* cp = cps0[k];
+      vector<ValCalculator*>& vcs = cp->valCalculatorsFlat();
+      for (size_t i = 0; i < vcs.size(); ++i)
+        fprintf(f, "VSTAGE vc %lu %lu %s %s %d\n", (unsigned long) cp->firstColour(), (unsigned long) cp->secondColour(), vcs[i]->className().c_str(), vcs[i]->mySymbolName().c_str(), vcs[i]->stage());
+      vector<ValCalculator*>& bvcs = cp->bondedValCalculatorsFlat();
+      for (size_t i = 0; i < bvcs.size(); ++i)
+        fprintf(f, "VSTAGE bvc %lu %lu %s %s %d\n", (unsigned long) cp->firstColour(), (unsigned long) cp->secondColour(), bvcs[i]->className().c_str(), bvcs[i]->mySymbolName().c_str(), bvcs[i]->stage());
+    }
+    for (size_t i = 0; i < Particle::s_cached_flat_properties.size(); ++i) {
+      ParticleCache* pc = Particle::s_cached_flat_properties[i];
+      fprintf(f, "VSTAGE pc %lu - %s %s %d\n", (unsigned long) pc->colour(), pc->className().c_str(), pc->mySymbolName().c_str(), pc->stage());
+    }
+  }
+
+  /* particles */
+  for (size_t c = 0; c < nC; ++c) {
+    for (int fr = 0; fr < 2; ++fr) {
+      ParticleList& pl = fr ? phase->frozenParticles(c) : phase->particles(c);
+      for (Particle* p = pl.first(); p != NULL; p = p->next) {
+        fprintf(f, "VP %lu %lu %s c=%lu isFrozen=%d", (unsigned long) c, (unsigned long) p->mySlot, fr ? "frozen" : "free", (unsigned long) p->c, (int) p->isFrozen);
+        pp(f, p->r); pp(f, p->v);
+        for (int h = 0; h < FORCE_HIST_SIZE; ++h) pp(f, p->force[h]);
+        dumpTag(f, p->tag);
+        fprintf(f, "\n");
+      }
+    }
+  }
+
+  /* cells */
+  map<Cell*, size_t> cellIdx;
+  vector<Cell*>& cells = manager->cells();
+  for (size_t i = 0; i < cells.size(); ++i) cellIdx[cells[i]] = i;
+  for (size_t i = 0; i < cells.size(); ++i) {
+    Cell* c = cells[i];
+    fprintf(f, "VCELL %lu", (unsigned long) i);
+    pp(f, c->corner1); pp(f, c->corner2);
+    fprintf(f, " npart=%lu", (unsigned long) c->m_n_particles);
+    for (size_t col = 0; col < nC; ++col) {
+      fprintf(f, " | free %lu", (unsigned long) col);
+      for (list<Particle*>::iterator p = c->particles(col).begin(); p != c->particles(col).end(); ++p) fprintf(f, " %lu", (unsigned long) (*p)->mySlot);
+      fprintf(f, " | frozen %lu", (unsigned long) col);
+      for (list<Particle*>::iterator p = c->frozenParticles(col).begin(); p != c->frozenParticles(col).end(); ++p) fprintf(f, " %lu", (unsigned long) (*p)->mySlot);
+      fprintf(f, " | inj %lu", (unsigned long) col);
+      for (list<Particle*>::iterator p = c->m_injected_particles[col].begin(); p != c->m_injected_particles[col].end(); ++p) fprintf(f, " %lu", (unsigned long) (*p)->mySlot);
+    }
+    fprintf(f, "\n");
+  }
+  fprintf(f, "VACTIVECELLS n=%lu", (unsigned long) manager->activeCells());
+  {
+    size_t guard = 0;
+    for (Cell* c = manager->firstCell(); c != NULL && guard <= cells.size(); c = c->next, ++guard) fprintf(f, " %lu", (unsigned long) cellIdx[c]);
+  }
+  fprintf(f, "\n");
+
+  /* links */
+  map<CellLink*, size_t> linkIdx;
+  vector<CellLink*>& links = manager->links();
+  for (size_t i = 0; i < links.size(); ++i) linkIdx[links[i]] = i;
+  for (size_t i = 0; i < links.size(); ++i) {
+    CellLink* l = links[i];
+    fprintf(f, "VLINK %lu %lu %lu %d", (unsigned long) i, (unsigned long) cellIdx[l->first()], (unsigned long) cellIdx[l->second()], l->m_alignment);
+    pp(f, l->mCellDist());
+    fprintf(f, " nact=%d ao=%d%d", l->m_n_active_cells, (int) l->actsOn().first, (int) l->actsOn().second);
+#ifdef _OPENMP
+    fprintf(f, " thread=%d", l->mThread());
+#endif
+    fprintf(f, "\n");
+  }
+#ifdef _OPENMP
+  {
+    vector<CellLink*> firsts = manager->firstLink();
+    vector<size_t> nact = manager->activeLinks();
+    for (size_t t = 0; t < firsts.size(); ++t) {
+      fprintf(f, "VACTIVELINKS thread=%lu n=%lu", (unsigned long) t, (unsigned long) nact[t]);
+      size_t guard = 0;
+      for (CellLink* l = firsts[t]; l != NULL && guard <= links.size(); l = l->next, ++guard) fprintf(f, " %lu", (unsigned long) linkIdx[l]);
+      fprintf(f, "\n");
+    }
+  }
+#else
+  fprintf(f, "VACTIVELINKS thread=0 n=%lu", (unsigned long) manager->activeLinks());
+  {
+    size_t guard = 0;
+    for (CellLink* l = manager->firstLink(); l != NULL && guard <= links.size(); l = l->next, ++guard) fprintf(f, " %lu", (unsigned long) linkIdx[l]);
+  }
+  fprintf(f, "\n");
+#endif
+
+  /* colour pairs, pair lists, bonded lists */
+  vector<ColourPair*>& cps = manager->colourPairs();
+  for (size_t k = 0; k < cps.size(); ++k) {
+    ColourPair* cp = cps[k];
+    fprintf(f, "VCP %lu %lu cutoff=%a need=%d\n", (unsigned long) cp->firstColour(), (unsigned long) cp->secondColour(), cp->cutoff(), (int) cp->needPairs());
+    for (int fr = 0; fr < 2; ++fr) {
+      vector<PairList>& pls = fr ? cp->frozenPairs() : cp->freePairs();
+      for (size_t t = 0; t < pls.size(); ++t) {
+        for (Pairdist* pr = pls[t].first(); pr != NULL; pr = pr->next) {
+          Particle* a = pr->firstPart(); Particle* b = pr->secondPart();
+          fprintf(f, "VPAIR %lu %lu %s %lu %lu %d %lu %d", (unsigned long) cp->firstColour(), (unsigned long) cp->secondColour(), fr ? "frozen" : "free", (unsigned long) t,
+                  (unsigned long) a->mySlot, (int) a->isFrozen, (unsigned long) b->mySlot, (int) b->isFrozen);
+          pp(f, pr->cartesian());
+          fprintf(f, " %a %a ao=%d%d", pr->absSquare(), pr->abs(), (int) pr->actsOnFirst(), (int) pr->actsOnSecond());
+          dumpTag(f, pr->tag);
+          fprintf(f, "\n");
+        }
+      }
+    }
+    vector<PairList*>* cl = cp->connectedLists();
+    for (size_t li = 0; li < cl->size(); ++li) {
+      for (Pairdist* pr = (*cl)[li]->first(); pr != NULL; pr = pr->next) {
+        Particle* a = pr->firstPart(); Particle* b = pr->secondPart();
+        fprintf(f, "VBOND %lu %lu %s %lu %d %lu %d", (unsigned long) cp->firstColour(), (unsigned long) cp->secondColour(), cp->connectedListName(li).c_str(),
+                (unsigned long) a->mySlot, (int) a->isFrozen, (unsigned long) b->mySlot, (int) b->isFrozen);
+        pp(f, pr->cartesian());
+        fprintf(f, " %a %a ao=%d%d", pr->absSquare(), pr->abs(), (int) pr->actsOnFirst(), (int) pr->actsOnSecond());
+        dumpTag(f, pr->tag);
+        fprintf(f, "\n");
+      }
+    }
+  }
+  fprintf(f, "VEND %ld\n", step);
+  fflush(f);
+}
+
+#endif
